@@ -257,9 +257,17 @@ def ret_type(op):
     return "None"
 
 
-def gen_source(ops):
+# SIGNATURE contexts: further, unused parameters around the ones the body needs (whether an argument is owned is a
+# property of ITS parameter, whatever stands before or after it).  name -> (leading parameters, trailing parameters)
+SIGS = {"": ([], []), "trail-borrowed": ([], ["zb: qubit"]), "lead-borrowed": (["zb: qubit"], []),
+        "trail-copyable": ([], ["zi: int"]), "trail-borrowed-array": ([], ["zba: array[qubit, 1]"]),
+        "lead-owned-classical-array": (["zca: array[int, 1] @owned"], [])}
+SIG_MARK = "@sig:"
+
+
+def gen_source(ops, sig=""):
     kinds = sorted({op[0] for op in ops}, key=KINDS.index)
-    params = [SPEC[k][0] for k in kinds if SPEC[k][0]]
+    params = SIGS[sig][0] + [SPEC[k][0] for k in kinds if SPEC[k][0]] + SIGS[sig][1]
     body = []
     for k in kinds:
         body += SPEC[k][1]
@@ -622,13 +630,13 @@ def shape(ops):
     return ",".join(op_id(o) for o in ops)
 
 
-def judge(ops):
+def judge(ops, sig=""):
     """Model verdict vs implementation outcome for one body.  Returns a dict (picklable)."""
     m = run_model(ops)
     if m is None:
         return {"skip": True}
     verdict, viols, _st = m
-    src = gen_source(ops)
+    src = gen_source(ops, sig)
     try:
         got = run_impl(src)
     except SyntaxError as e:
@@ -679,8 +687,18 @@ def _ctx_name(k):
             "ba": "borrowed-array", "la": "local-list"}.get(k, k)
 
 
+def _split_sig(ids):
+    if ids and ids[0].startswith(SIG_MARK):
+        return ids[0][len(SIG_MARK):], ids[1:]
+    return "", ids
+
+
 def _judge_ids(ids):
-    return judge([parse_op(s) for s in ids])
+    sig, ids = _split_sig(ids)
+    r = judge([parse_op(s) for s in ids], sig)
+    if sig and "key" in r:
+        r["what"] = f"[signature context {sig}] " + r["what"]
+    return r
 
 
 # ------------------------------------------------------------------------- bypasses
@@ -803,6 +821,10 @@ def run(ctx):
     states, transitions, finals = len(index), len(trans), len(finals_set)
 
     items = [[op_id(o) for o in seq] for seq in bodies]
+    # every body over ONE value once more in every signature context (the verdict of the model does not change)
+    n_plain = len(items)
+    items += [[SIG_MARK + sg] + it for it in items[:n_plain] if it and len({parse_op(x)[0] for x in it}) == 1
+              for sg in SIGS if sg]
     # warm the parent (std-lib definitions get parsed / checked once and are then inherited
     # by the forked workers): every single-op body, results discarded
     for it in items:
@@ -888,8 +910,9 @@ def replay(ctx, item):
         out = run_impl(item["src"])
         many = item["affine"][1] in ("2", "3", "2-via-tuple")
         return {"violation": (out[0] == "crash") or (many and out[0] in ("ok", "invalid")) or (not many and out[0] != "ok"), "outcome": out}
-    ops = [parse_op(s) for s in item["ops"]]
-    r = judge(ops)
-    r["source"] = gen_source(ops)
+    sig, ids = _split_sig(item["ops"])
+    ops = [parse_op(s) for s in ids]
+    r = judge(ops, sig)
+    r["source"] = gen_source(ops, sig)
     r["violation"] = "key" in r
     return r
